@@ -103,10 +103,10 @@ func findPipe(name string) *Pipe {
 	return nil
 }
 
-func in1(a string) []string          { return []string{a} }
-func ins(a ...string) []string       { return a }
-func ps(a ...string) []string        { return a }
-func cfgOf(a ...int) []int           { return a }
+func in1(a string) []string    { return []string{a} }
+func ins(a ...string) []string { return a }
+func ps(a ...string) []string  { return a }
+func cfgOf(a ...int) []int     { return a }
 func allGE1(cfg []int) bool {
 	for _, c := range cfg {
 		if c < 1 {
@@ -138,7 +138,7 @@ type Bar struct{ O, H, L, C, V float64 }
 // DataSpec describes the data of a run.
 type DataSpec struct {
 	Seed      uint64 `json:"seed"`
-	Perturbed bool   `json:"perturbed"`  // positions >= PerturbAt use Seed2
+	Perturbed bool   `json:"perturbed"` // positions >= PerturbAt use Seed2
 	PerturbAt int    `json:"perturb_at"`
 	Seed2     uint64 `json:"seed2"`
 	Round     int    `json:"round"` // digits to round to (0 = none)
